@@ -24,6 +24,11 @@ pub struct GridCheck {
     pub extra_env: Vec<(String, String)>,
     /// signature of a known-finding class for a program (None: not in any known class)
     pub known_sig: Option<fn(&Prog) -> Option<String>>,
+    /// consecutive programs forming one comparison group (C07: the same program under the macro
+    /// names of one class); batches keep groups together
+    pub group: usize,
+    /// cross-case oracle over the reports of one batch: (case index, violation detail)
+    pub post: Option<fn(&[Prog], &[Value]) -> Vec<(usize, Value)>>,
 }
 
 pub struct Found {
@@ -291,7 +296,7 @@ pub fn run(check: GridCheck, tier: &str, seed: u64) -> i32 {
     let mut known_hits: BTreeMap<String, u64> = BTreeMap::new();
     for p in &check.progs {
         let text = render::case_fn(p, 0);
-        if !seen.insert(text) {
+        if check.group <= 1 && !seen.insert(text) {
             continue;
         }
         if let Some(f) = check.known_sig {
@@ -309,7 +314,8 @@ pub fn run(check: GridCheck, tier: &str, seed: u64) -> i32 {
     let mut found: Vec<Found> = Vec::new();
     let pkg = format!("jvb_{}", check.id.to_lowercase());
     let mut exit = 0;
-    for (ci, chunk) in progs.chunks(check.batch_size.max(1)).enumerate() {
+    let bsize = (check.batch_size.max(1) / check.group.max(1)).max(1) * check.group.max(1);
+    for (ci, chunk) in progs.chunks(bsize).enumerate() {
         let res = build_and_run(&pkg, chunk, &check.mode, check.budget, seed.wrapping_add(ci as u64), &check.features, check.timeout_s, &check.extra_env, 16);
         if !res.infra.is_empty() {
             ev.infra.extend(res.infra.iter().cloned());
@@ -342,6 +348,11 @@ pub fn run(check: GridCheck, tier: &str, seed: u64) -> i32 {
                 }
             }
         }
+        if let Some(post) = check.post {
+            for (idx, d) in post(chunk, &res.reports) {
+                found.push(Found { prog: chunk[idx].clone(), detail: d, compile: false });
+            }
+        }
         let missing = chunk.len() - res.compile_fail.len() - reported.len().min(chunk.len() - res.compile_fail.len());
         if missing > 0 {
             ev.infra.push(format!("batch {}: {} cases produced no report", ci, missing));
@@ -362,15 +373,27 @@ pub fn run(check: GridCheck, tier: &str, seed: u64) -> i32 {
             eprintln!("--- found (compile={}):\n{}\n{}", f.compile, render::macro_body(&f.prog), f.detail);
         }
     }
+    // prefer a behavioural violation over a compile failure as the reported witness
+    found.sort_by_key(|f| f.compile);
     if let Some(first) = found.into_iter().next() {
-        let max_shrink = if tier == "quick" { 12 } else { 40 };
+        let max_shrink = if check.group > 1 { 0 } else if tier == "quick" { 12 } else { 40 };
         let small = shrink(&check, seed, first, max_shrink);
+        let group_progs: Vec<Value> = if check.group > 1 {
+            // the whole comparison group of the witness
+            let text = render::case_fn(&small.prog, 0);
+            let pos = progs.iter().position(|p| render::case_fn(p, 0) == text).unwrap_or(0);
+            let g0 = pos / check.group * check.group;
+            progs[g0..(g0 + check.group).min(progs.len())].iter().map(|p| p.to_json()).collect()
+        } else {
+            vec![]
+        };
         let replay = evid::write_replay(
             &check.id,
             &json!({
                 "property": check.id, "engine": "R-grid", "mode": check.mode, "seed": seed, "tier": tier, "budget": check.budget,
                 "features": check.features, "extra_env": check.extra_env,
                 "program": small.prog.to_json(),
+                "group": group_progs,
                 "rendered": render::case_fn(&small.prog, 0),
                 "compile_failure": small.compile,
                 "violation": small.detail,
@@ -410,8 +433,16 @@ pub fn replay(v: &Value) -> i32 {
         .as_array()
         .map(|a| a.iter().filter_map(|p| Some((p[0].as_str()?.to_string(), p[1].as_str()?.to_string()))).collect())
         .unwrap_or_default();
-    let res = build_and_run(&format!("jvr_{}", id.to_lowercase()), &[prog], &mode, v["budget"].as_u64().unwrap_or(256) as usize, v["seed"].as_u64().unwrap_or(0), &feats_ref, 120, &extra, 1);
+    let progs: Vec<Prog> = match v["group"].as_array() {
+        Some(g) if !g.is_empty() => g.iter().map(Prog::from_json).collect(),
+        _ => vec![prog],
+    };
+    let res = build_and_run(&format!("jvr_{}", id.to_lowercase()), &progs, &mode, v["budget"].as_u64().unwrap_or(256) as usize, v["seed"].as_u64().unwrap_or(0), &feats_ref, 120, &extra, 1);
+    let post_found = if progs.len() > 1 { crate::checks::post_for(&id).map(|f| f(&progs, &res.reports)).unwrap_or_default() } else { vec![] };
     if let Some((_, d, _)) = first_violation(&res) {
+        println!("replay: violation reproduced: {}", d);
+        1
+    } else if let Some((_, d)) = post_found.into_iter().next() {
         println!("replay: violation reproduced: {}", d);
         1
     } else if !res.infra.is_empty() {
